@@ -59,13 +59,20 @@ func main() {
 		if v.Fam == "noise" && c > 2 {
 			c = 2
 		}
+		var prev sshdvec.Subst
 		for k := 0; k < c; k++ {
 			var fp **sshdvec.FifoSession
 			nrec++
 			if *fifoDir != "" && nrec%*fifoEvery == 0 {
 				fp = &sess
 			}
-			rec := sshdvec.Run(&v, r, n, k, *framed, fp, *fifoDir, stream)
+			// every second concretisation of a vector keeps a random half of the previous one's values
+			var keep sshdvec.Subst
+			if k%2 == 1 {
+				keep = prev
+			}
+			rec := sshdvec.Run(&v, r, n, k, *framed, fp, *fifoDir, stream, keep)
+			prev = rec.Subst
 			if rec.Fifo != nil {
 				nfifo++
 			}
